@@ -726,8 +726,26 @@ impl<S: Sample> RenderedImage<S> {
     ) -> Result<Arc<ImageWithRegion>> {
         let image_header = self.image.frame.image_header();
         let image_region = self.image.image_region;
-        let oriented_image_region = oriented_image_region
-            .unwrap_or_else(|| util::apply_orientation_to_image_region(image_header, image_region));
+        // The blended image is cached and handed to every later user of this frame, whatever region
+        // that user asks for; always cover the region the image is rendered for as well.
+        let full_region = util::apply_orientation_to_image_region(image_header, image_region);
+        let oriented_image_region = match oriented_image_region {
+            Some(region) if region.is_empty() => full_region,
+            Some(region) if full_region.is_empty() => region,
+            Some(region) => {
+                let left = region.left.min(full_region.left);
+                let top = region.top.min(full_region.top);
+                let right = region.right().max(full_region.right());
+                let bottom = region.bottom().max(full_region.bottom());
+                Region {
+                    left,
+                    top,
+                    width: right.abs_diff(left),
+                    height: bottom.abs_diff(top),
+                }
+            }
+            None => full_region,
+        };
 
         let mut grid_lock = loop {
             match self.image.wait_until_render() {
